@@ -346,12 +346,31 @@ func ruleMultimapMerge(c *Ctx, pkgs ...string) {
 					// does the stored value derive from the element it replaces?
 					derives := false
 					dstStr := types.ExprString(ie)
-					ast.Inspect(as.Rhs[0], func(y ast.Node) bool {
-						if e, ok := y.(*ast.IndexExpr); ok && types.ExprString(e) == dstStr {
-							derives = true
-						}
-						return true
-					})
+					var derivesFrom func(e ast.Node, depth int)
+					derivesFrom = func(e ast.Node, depth int) {
+						ast.Inspect(e, func(y ast.Node) bool {
+							if ie2, ok := y.(*ast.IndexExpr); ok && types.ExprString(ie2) == dstStr {
+								derives = true
+							}
+							if id, ok := y.(*ast.Ident); ok && depth < 3 {
+								if o := info.ObjectOf(id); o != nil {
+									// definitions of the local inside the merging loop
+									ast.Inspect(x.Body, func(z ast.Node) bool {
+										if d, ok := z.(*ast.AssignStmt); ok && d != as && len(d.Lhs) == len(d.Rhs) {
+											for i, l := range d.Lhs {
+												if lid, ok := l.(*ast.Ident); ok && info.ObjectOf(lid) == o {
+													derivesFrom(d.Rhs[i], depth+1)
+												}
+											}
+										}
+										return true
+									})
+								}
+							}
+							return true
+						})
+					}
+					derivesFrom(as.Rhs[0], 0)
 					if derives {
 						c.OK(key, c.P.Pos(as.Pos()), "the merged list extends the one already stored under the key")
 					} else if !outlives(ie.X) {
@@ -1032,6 +1051,9 @@ func ruleStickyError(c *Ctx) {
 			if cs == "errors.New" || cs == "fmt.Errorf" || cs == "" {
 				continue
 			}
+			if tv, ok := info.Types[call.Fun]; ok && tv.IsType() {
+				continue // a conversion to an error type: a fresh, non-nil error
+			}
 			n++
 			key := fmt.Sprintf("sticky-error.%s#%d", FuncKey(fd.Obj), n)
 			// the test has to be the last thing that happens to the reader before the assignment: either the assignment
@@ -1069,7 +1091,7 @@ func ruleStickyError(c *Ctx) {
 				if y != ast.Node(as) {
 					return true
 				}
-				for k := len(path) - 2; k >= 1; k-- {
+				for k := len(path) - 2; k >= 0; k-- {
 					blk, ok := path[k].(*ast.BlockStmt)
 					if !ok {
 						continue
@@ -1094,11 +1116,18 @@ func ruleStickyError(c *Ctx) {
 					if guarded || !clean {
 						break
 					}
+					if k == 0 {
+						break
+					}
 					if is, ok := path[k-1].(*ast.IfStmt); ok && is.Body == blk {
 						if errTest(is.Cond, token.EQL) {
 							guarded = true
+							break
 						}
-						break
+						if usesReader(is.Cond) || (is.Init != nil && usesReader(is.Init)) {
+							break
+						}
+						// an if about something else: keep looking in the block that contains it
 					}
 				}
 				return true
